@@ -801,7 +801,52 @@ class Evaluator:
                 return self._sym(f"fn:{q}")
             if q in self.repo.classes:
                 return self._sym(f"cls:{q}", None)
+        lit = self._module_constant(mod, name)
+        if lit is not None:
+            return lit
         return self._sym(name)
+
+    def _module_constant(self, mod, name):
+        """a module-level name that is bound exactly once, at the top level of the module, to a literal number / string /
+        None / bool (a named constant) IS that literal"""
+        cache = mod.__dict__.setdefault("_const_cache", {})
+        if name not in cache:
+            val = None
+            binds = 0
+            for st in mod.tree.body:
+                tg = st.targets if isinstance(st, ast.Assign) else [st.target] if isinstance(st, (ast.AnnAssign, ast.AugAssign)) else []
+                for t in tg:
+                    for n in ast.walk(t):
+                        if isinstance(n, ast.Name) and n.id == name:
+                            binds += 1
+                            v = getattr(st, "value", None)
+                            if isinstance(st, ast.Assign) and len(st.targets) == 1 and isinstance(t, ast.Name):
+                                if isinstance(v, ast.UnaryOp) and isinstance(v.op, ast.USub) and isinstance(v.operand, ast.Constant):
+                                    val = ("neg", v.operand.value)
+                                elif isinstance(v, ast.Constant):
+                                    val = ("lit", v.value)
+            # rebinding anywhere else (global statements, loops / ifs at module level) disqualifies the name
+            for n in ast.walk(mod.tree):
+                if isinstance(n, ast.Global) and name in n.names:
+                    binds += 1
+                if isinstance(n, (ast.For, ast.If, ast.With, ast.Try, ast.While)) and n in mod.tree.body:
+                    for m_ in ast.walk(n):
+                        if isinstance(m_, ast.Name) and m_.id == name and not isinstance(m_.ctx, ast.Load):
+                            binds += 1
+            cache[name] = val if binds == 1 else None
+        val = cache[name]
+        if val is None:
+            return None
+        kind, x = val
+        if isinstance(x, bool) or x is None:
+            return self.ctx.mk(("const", x))
+        if isinstance(x, str):
+            return self.ctx.mk(("str", x))
+        if isinstance(x, (int, float)):
+            node = ast.Constant(value=x)
+            t = self._t(node, None, None)
+            return r_neg(t) if kind == "neg" else t
+        return None
 
     def _def_term(self, name, node, restrict):
         key = ("def", name, node.id, restrict, self.alias_mode, self.exact)
